@@ -70,6 +70,12 @@ CLAIMED = {
 import glob
 for frag in sorted(glob.glob(os.path.join(V, "manifest.*.json"))):
     for pid, e in json.load(open(frag)).items():
+        if pid in CLAIMED:
+            # a property built in two parts (C12: font level here, table level by the tables builder)
+            c = CLAIMED[pid]
+            c["text"] += " TABLE LEVEL: " + e["text"]
+            c["note"] += "; table level: " + e["note"]
+            continue
         CLAIMED[pid] = dict(technique=e["technique"], level=e.get("level", "exploration"), text=e["text"], note=e["note"], design="5/" + pid + " and 11")
 
 REASON_TODO = "check not built yet in this session; no claim is made"
